@@ -2,6 +2,8 @@ import BumpVerif.Gen.FnVecCopy
 import BumpVerif.Props.GenFnVec
 import BumpVerif.Proofs.VecRefine2
 import BumpVerif.Proofs.VecCore
+import BumpVerif.Proofs.VecExtend
+import BumpVerif.Proofs.VecMore
 /-!
 # `Vec::{append_elements, extend_from_slice_copy_unchecked, extend_from_slice_copy}` as translated = the model
 
@@ -172,16 +174,36 @@ theorem dropRestP_exhausted (c : Cfg) (w : W) (it : It) (h : it.remaining = 0) :
     have : l = [] := by simpa [It.remaining] using h
     simp [dropRestP, It.dropRest, this, dropAll]
 
-/-- `Extend::extend(iter)` as translated is the model's `extend`: also when `reserve`, `next`, `push` or `Clone` panics half-way -/
-theorem gen_vec_extend (c : Cfg) (hc : CfgOK c) (it : It) (v : VS) (xs : List Elem) (w : W) (hr : RepB c v xs) :
-    toModel (Gen.Fn.vec_extend c it (v, w)) = extend c v it w := by
-  unfold Gen.Fn.vec_extend extend extendRef
+/-- the translator's shape of a model result `(vector, effects, some () | none)`: `none` is a *panic* -/
+def ofModel (m : VS × W × Option Unit) : VW × Outcome Unit :=
+  ((m.1, m.2.1), match m.2.2 with | some _ => .ok () | none => .panic)
+
+theorem extend_reserve_none {c : Cfg} {v : VS} {it : It} {w : W} (h : rawReserve c v v.len it.hintLo = none) :
+    extend c v it w = (v, it.dropRest c w, none) := by
+  unfold extend extendRef; rw [h]; rfl
+
+theorem extend_reserve_some {c : Cfg} {v v1 : VS} {it : It} {w : W} (h : rawReserve c v v.len it.hintLo = some v1) :
+    extend c v it w = ((extendLoop c (it.remaining + 1) v1 it w).1,
+      (extendLoop c (it.remaining + 1) v1 it w).2.1.dropRest c (extendLoop c (it.remaining + 1) v1 it w).2.2.1,
+      bif (extendLoop c (it.remaining + 1) v1 it w).2.2.2 then some () else none) := by
+  unfold extend extendRef; rw [h]
+  show (match extendLoop c (it.remaining + 1) v1 it w with
+        | (v, it, w, ok) => (v, It.dropRest c w it, if ok = true then some () else none)) = _
+  rcases extendLoop c (it.remaining + 1) v1 it w with ⟨a, b, d, e⟩
+  cases e <;> rfl
+
+/-- `Extend::extend(iter)` as translated is the model's `extend`: also when `reserve`, `next`, `push` or `Clone` panics half-way
+(and it ends `ok` or panics: no `bad` step is ever taken) -/
+theorem gen_vec_extend_raw (c : Cfg) (hc : CfgOK c) (it : It) (v : VS) (xs : List Elem) (w : W) (hr : RepB c v xs) :
+    Gen.Fn.vec_extend c it (v, w) = ofModel (extend c v it w) := by
+  unfold Gen.Fn.vec_extend
   simp only []
   rw [gen_vec_reserve]
   cases hres : rawReserve c v v.len it.hintLo with
-  | none => simp [bindU, toModel, it_drop]
+  | none => rw [extend_reserve_none hres]; simp [bindU, it_drop, ofModel]
   | some v1 =>
     obtain ⟨hr1, _, _⟩ := rawReserve_some hc hr hres
+    rw [extend_reserve_some hres]
     simp only [bindU]
     have hloop := extend_loop c hc it () (it.remaining + 1) it v1 xs w hr1 (by omega)
     rcases hg : Gen.Fn.vec_extend.loop_1 c it () (it.remaining + 1) it (v1, w) with ⟨⟨a, b⟩, o⟩
@@ -191,18 +213,62 @@ theorem gen_vec_extend (c : Cfg) (hc : CfgOK c) (it : It) (v : VS) (xs : List El
     | ok it' =>
       simp only [loopView] at h1 h2 h3 h4
       have hex : it'.remaining = 0 := by simpa using h4
-      simp only [bindW, it_drop_end, dropRestP_exhausted c b it' hex, toModel]
+      simp only [bindW, it_drop_end, dropRestP_exhausted c b it' hex]
       rw [← h1, ← h2, ← h3]; rfl
     | panic =>
       simp only [loopView] at h1 h2 h3
-      simp only [bindW, toModel]
+      simp only [bindW]
       rw [← h1, ← h2, ← h3]; rfl
     | bad why => simp [loopView] at h4
     | err => simp [loopView] at h4
     | envBad => simp [loopView] at h4
 
+theorem toModel_ofModel (m : VS × W × Option Unit) : toModel (ofModel m) = m := by
+  obtain ⟨v, w, o⟩ := m
+  cases o <;> rfl
+
+theorem gen_vec_extend (c : Cfg) (hc : CfgOK c) (it : It) (v : VS) (xs : List Elem) (w : W) (hr : RepB c v xs) :
+    toModel (Gen.Fn.vec_extend c it (v, w)) = extend c v it w := by
+  rw [gen_vec_extend_raw c hc it v xs w hr, toModel_ofModel]
+
+/-! ## functions that build a new vector: `from_iter_in`, `Clone::clone` -/
+
+/-- the vector built (`none`: the function panicked, after dropping what it had built) and the effects -/
+def builtView (r : VW × Outcome Unit) : Option VS × W :=
+  match r with
+  | ((v, w), .ok _) => (some v, w)
+  | ((_, w), .panic) => (none, w)
+  | ((_, w), .bad why) => (none, w.flag why)
+  | ((_, w), _) => (none, w.flag "?")
+
+/-- `Vec::from_iter_in(iter, bump)` as translated is the model's `fromIter`, whatever vector the state held before -/
+theorem gen_vec_from_iter_in (c : Cfg) (hc : CfgOK c) (it : It) (v0 : VS) (w : W) :
+    builtView (Gen.Fn.vec_from_iter_in c it () (v0, w)) = fromIter c it w := by
+  unfold Gen.Fn.vec_from_iter_in fromIter
+  simp only [gen_vec_new_in, new_vec, bindU]
+  rw [gen_vec_extend_raw c hc it newVec [] w (newVec_rep c)]
+  rcases extend c newVec it w with ⟨v, w', o⟩
+  cases o <;> simp [ofModel, bindU, builtView, drop_vec]
+
+/-- `Clone for Vec` as translated is the model's `cloneVec`: capacity for `len` elements, then the clones pushed in order; a
+refused allocation or a panicking `Clone` leaves nothing behind but the events of the drops -/
+theorem gen_vec_clone (c : Cfg) (hc : CfgOK c) (v : VS) (w : W) (hl : v.len < USIZE) :
+    builtView (Gen.Fn.vec_clone c (v, w)) = cloneVec c v w := by
+  unfold Gen.Fn.vec_clone cloneVec
+  simp only [gen_vec_len, pureW, gen_vec_with_capacity_in]
+  cases hcap : withCapacity c v.len with
+  | none => simp [hcap, new_vec, bindW, builtView]
+  | some n =>
+    have hrep : RepB c n [] := (withCapacity_some hc hl hcap).1
+    simp only [hcap, new_vec, bindW]
+    rw [gen_vec_extend_raw c hc _ n [] w hrep]
+    rcases extend c n (It.cloned v.owned) w with ⟨v', w', o⟩
+    cases o <;> simp [ofModel, bindU, builtView, drop_vec]
+
 #print axioms gen_vec_extend_from_slice_copy
 #print axioms gen_vec_extend
+#print axioms gen_vec_from_iter_in
+#print axioms gen_vec_clone
 #print axioms gen_vec_extend_from_slice_copy_unchecked
 #print axioms gen_vec_append_elements
 #print axioms gen_vec_append
